@@ -39,6 +39,7 @@ type PredDef struct {
 	File    string
 	Line    int
 	Abstract bool
+	Opaque   bool // uninterpreted unless the function under verification reveals it
 }
 
 type ModSpec struct {
@@ -83,6 +84,8 @@ type Contract struct {
 	Raw      []string
 	FrameTags []string
 	GhostWrites []string
+	Deterministic bool
+	Reveals  []string
 }
 
 type ContractSet struct {
@@ -92,6 +95,21 @@ type ContractSet struct {
 	Files     []string
 	Lemmas    []*Lemma
 	FuncTypes map[string]*Contract
+	UFuns     []UFunDecl
+	Axioms    []AxiomDecl
+}
+
+type UFunDecl struct {
+	Name   string
+	Params []TypedName
+	Result TypedName
+	Pkg    string
+}
+
+type AxiomDecl struct {
+	Name   string
+	Clause Clause
+	Pkg    string
 }
 
 type GuardDecl struct {
@@ -176,7 +194,7 @@ func (cs *ContractSet) loadContractFile(path, pkgPath string) error {
 			no   int
 		}{t, i + 1})
 	}
-	keywords := []string{"pred ", "abstract pred ", "func ", "extern func ", "functype ", "requires ", "ensures", "logical ", "loop ", "modifies", "pure", "assert ", "ghost ", "when ", "guarded ", "lemma ", "hint ", "by ", "use ", "trusted", "acquires "}
+	keywords := []string{"pred ", "abstract pred ", "func ", "extern func ", "functype ", "requires ", "ensures", "logical ", "loop ", "modifies", "pure", "assert ", "ghost ", "when ", "guarded ", "lemma ", "hint ", "by ", "use ", "trusted", "acquires ", "fn ", "ufun ", "axiom ", "deterministic", "frametags ", "opaque pred ", "reveal "}
 	startsKeyword := func(s string) bool {
 		s = strings.TrimSpace(s)
 		for _, k := range keywords {
@@ -211,9 +229,30 @@ func (cs *ContractSet) loadContractFile(path, pkgPath string) error {
 			return Clause{Text: strings.TrimSpace(text), Expr: e, Tags: tags, File: filepath.Base(path), Line: it.no}, nil
 		}
 		switch {
-		case strings.HasPrefix(t, "pred ") || strings.HasPrefix(t, "abstract pred "):
+		case strings.HasPrefix(t, "ufun "):
+			// ufun name(a string, i int) string : uninterpreted spec function
+			name, params, results, err := parseHeader("func " + strings.TrimPrefix(t, "ufun "))
+			if err != nil || len(results) != 1 {
+				return fmt.Errorf("%s:%d: ufun name(params) result: %v", path, it.no, err)
+			}
+			cs.UFuns = append(cs.UFuns, UFunDecl{Name: name, Params: params, Result: results[0], Pkg: pkgPath})
+			cur, curLemma = nil, nil
+		case strings.HasPrefix(t, "axiom "):
+			rest := strings.TrimPrefix(t, "axiom ")
+			i := strings.Index(rest, ":")
+			if i < 0 {
+				return fmt.Errorf("%s:%d: axiom name: expr", path, it.no)
+			}
+			c, err := mkClause(rest[i+1:], nil)
+			if err != nil {
+				return err
+			}
+			cs.Axioms = append(cs.Axioms, AxiomDecl{Name: strings.TrimSpace(rest[:i]), Clause: c, Pkg: pkgPath})
+			cur, curLemma = nil, nil
+		case strings.HasPrefix(t, "pred ") || strings.HasPrefix(t, "abstract pred ") || strings.HasPrefix(t, "fn ") || strings.HasPrefix(t, "opaque pred "):
 			abstract := strings.HasPrefix(t, "abstract ")
-			t = strings.TrimPrefix(strings.TrimPrefix(t, "abstract "), "pred ")
+			opaque := strings.HasPrefix(t, "opaque ")
+			t = strings.TrimPrefix(strings.TrimPrefix(strings.TrimPrefix(strings.TrimPrefix(t, "opaque "), "abstract "), "pred "), "fn ")
 			var head, body string
 			if i := strings.Index(t, "="); i >= 0 && !abstract {
 				// the first '=' that is not part of '==', '<=', '>=', '!='
@@ -226,7 +265,7 @@ func (cs *ContractSet) loadContractFile(path, pkgPath string) error {
 			if err != nil {
 				return fmt.Errorf("%s:%d: %v", path, it.no, err)
 			}
-			pd := &PredDef{Name: name, Params: params, Pkg: pkgPath, File: filepath.Base(path), Line: it.no, Abstract: abstract}
+			pd := &PredDef{Name: name, Params: params, Pkg: pkgPath, File: filepath.Base(path), Line: it.no, Abstract: abstract, Opaque: opaque}
 			if !abstract {
 				e, err := parseExpr(body)
 				if err != nil {
@@ -387,6 +426,16 @@ func (cs *ContractSet) loadContractFile(path, pkgPath string) error {
 				}
 			case t == "pure":
 				cur.Pure = true
+			case t == "deterministic":
+				cur.Deterministic = true
+			case strings.HasPrefix(t, "reveal "):
+				for _, x := range strings.Split(strings.TrimPrefix(t, "reveal "), ",") {
+					cur.Reveals = append(cur.Reveals, strings.TrimSpace(x))
+				}
+			case strings.HasPrefix(t, "frametags "):
+				for _, x := range strings.Split(strings.TrimPrefix(t, "frametags "), ",") {
+					cur.FrameTags = append(cur.FrameTags, strings.TrimSpace(x))
+				}
 			case t == "trusted":
 				cur.Trusted = true
 			case strings.HasPrefix(t, "modifies"):
